@@ -136,6 +136,10 @@ func c07Exec(ctx *core.Ctx, c c07Case) {
 	}
 	ctx.Eval(fmt.Sprintf("%d|%d|%d|%s|%s|%s", c.CSeed, c.Conv, c.Cut, c.Kind, c.Seg, c.Limit), incomplete)
 
+	if gaveUp("c07cut|" + cv.Name) {
+		ctx.Add("cases_skipped_after_an_established_hang", 1)
+		return
+	}
 	rig := newRig(cv.Mode, func(s *smtp.Server) {
 		switch c.Limit {
 		case "exact":
@@ -192,6 +196,25 @@ func c07Exec(ctx *core.Ctx, c c07Case) {
 	fin := rig.Finish()
 	ends := waitDataEnds(rig.Log)
 	if isWatchdog(err) || !fin || !ends {
+		giveUp("c07cut|" + cv.Name)
+		if !ends {
+			// The peer is gone for good and everything it sent has been consumed, yet a Data call
+			// is still open and nothing has happened for a while: its reader will never fail.
+			// Decided from state (open call, no possible input, quiet log), not from the time.
+			quiet, last := 0, rig.Log.Len()
+			for i := 0; i < 600 && quiet < 300; i++ {
+				time.Sleep(time.Millisecond)
+				if n := rig.Log.Len(); n != last {
+					last, quiet = n, 0
+				} else {
+					quiet++
+				}
+			}
+			if quiet >= 300 && !waitDataEndsNow(rig.Log) {
+				ctx.Violate("C07:reader-never-fails", fmt.Sprintf("the connection ended (%s at octet %d of %s) but the backend's reader neither fails nor ends: the delivery is parked for ever with an incomplete message", c.Kind, c.Cut, cv.Name), c, witness(rig.Log, replies))
+				return
+			}
+		}
 		ctx.Inconclusive(fmt.Sprintf("C07 watchdog conv=%s cut=%d", cv.Name, c.Cut))
 		return
 	}
